@@ -23,6 +23,9 @@ pub struct ChildSpec {
     pub as_limit_mb: u64,
     #[serde(default)]
     pub quiet: bool,
+    /// rayon pool size of the child (0 = default 4); children run side by side
+    #[serde(default)]
+    pub rayon_threads: u32,
 }
 
 #[derive(Clone, Debug, Serialize, Deserialize, Default)]
